@@ -45,4 +45,16 @@ CHECKS = {
         design_ref="DESIGN.md §4 C05",
         note="Substituted references are matched structurally (C03 decides whether relative tokens reach the target). Entity binds are C19's.",
     ),
+    "C07": dict(
+        technique="property-based testing with a validity-predicate oracle over the itext block (every jr:itext()/itextId resolves in every translation, equal id sets, unique languages/ids, default flag)",
+        text="Random multi-language forms with sparse translation patterns, shared lists, search() selects and label-less choices; the oracle needs no model: it reads all references and all translations from the parsed output.",
+        design_ref="DESIGN.md §4 C07",
+        note="References are collected from every attribute and every itextId element of the parsed document.",
+    ),
+    "C08": dict(
+        technique="property-based testing against a reference model of effective text per (element, kind, language), with unique generated texts and random column order",
+        text="Random multi-language forms where every text encodes its row/column/language; for each element with a control and each language of the form the shown label/hint/guidance/messages/media (itext resolved) must equal the model, holes must be '-', and the set of translations must equal the languages the sheets mention.",
+        design_ref="DESIGN.md §4 C08",
+        note="Model in vf/ref/itext.py restated from the XLSForm docs (default-language rule: suffixed cell wins over unsuffixed). Two genuine defects found here were fixed in /repo.",
+    ),
 }
